@@ -26,7 +26,12 @@ FrameCases == {Case("flat", g, t, "frame", With(With(BaseV(g, 1), t, ObjVal), "a
 NoId(v) == [v EXCEPT !.p = Restrict(@, DOMAIN @ \ {"id"})]
 IdlessRoots == {Case("flat", c.lab.g, c.lab.t, "idless-root:" \o c.lab.shape, NoId(c.v)) : c \in {d \in SingleOK : d.lab.shape \in {"object", "actor", "iri", "idless"}}}
                \cup {Case("flat", g, "to", "idless-root:list", NoId(With(BaseV(g, 1), "to", ListOf(<<ObjVal, I1, ActorVal>>)))) : g \in {"Activity", "Object", "Actor"}}
-AllFlat == SingleOK \cup ListCases \cup FrameCases \cup IdlessRoots
+\* the same addressee in SEVERAL addressing lists: each list is flattened on its own, nothing moves or disappears between lists
+CrossLists == {Case("flat", g, "to+cc+bcc+audience", "cross-lists",
+                    With(With(With(With(BaseV(g, 1), "to", ListOf(<<ObjVal, I1>>)), "cc", ListOf(<<I1, ActorVal, Iri(ObjVal.p.id.s)>>)),
+                              "bcc", ListOf(<<ActorVal, I2, ObjVal2>>)), "audience", ListOf(<<I1, ActorVal>>)))
+               : g \in {"Activity", "Object", "Actor", "Question"}}
+AllFlat == SingleOK \cup ListCases \cup FrameCases \cup IdlessRoots \cup CrossLists
 GenInit == orig = NilItem /\ val = NilItem /\ phase = "gen"
 GenNext == FALSE /\ UNCHANGED vars
 ASSUME ndJsonSerialize("c16_cases.ndjson", SetToSeq(AllFlat))
